@@ -42,10 +42,10 @@ Value& UPPERExpression::value(Context & ctx) const
     if (val.lvalue())
       return ctx.allocate(Value(Value::type_literal));
     val.swap(Value(Value::type_literal));
-    return val;
+    return handback(ctx, val);
   case Type::LITERAL:
     if (val.isNull())
-      return val;
+      return handback(ctx, val);
     if (val.lvalue())
     {
       Literal * tmp = new Literal(*val.literal());
@@ -53,7 +53,7 @@ Value& UPPERExpression::value(Context & ctx) const
       return ctx.allocate(Value(tmp));
     }
     std::transform(val.literal()->begin(), val.literal()->end(), val.literal()->begin(), ::toupper);
-    return val;
+    return handback(ctx, val);
   default:
     throw RuntimeError(EXC_RT_FUNC_ARG_TYPE_S, KEYWORDS[oper]);
   }
